@@ -27,7 +27,7 @@ def run_seed(name, patch, reverse=False):
         env.pop("GOWORK", None)
         res = {}
         for p in PROPS:
-            r = subprocess.run([os.path.join(VERIF, "bin", "vcheck"), "-prop", p, "-tier", "quick"], capture_output=True, text=True, env=env)
+            r = subprocess.run([os.environ.get("VCHECK_BIN", os.path.join(VERIF, "bin", "vcheck")), "-prop", p, "-tier", "quick"], capture_output=True, text=True, env=env)
             rules = sorted({l.split("] ")[0].split("[")[-1] for l in r.stdout.splitlines() if "] " in l and l.split("] ")[0].count("[") and ": [" in l})
             und = any("undecided" in l for l in r.stdout.splitlines() if ": [" in l)
             if r.returncode != 0:
